@@ -19,10 +19,11 @@ constexpr auto wmemcpy(wchar_t* dest, wchar_t const* src, etl::size_t count) noe
 #if defined(__clang__)
     return __builtin_wmemcpy(dest, src, count);
 #else
-    if (count == 0) {
-        return dest;
+    auto* out = dest;
+    while (count-- != 0) {
+        *out++ = *src++;
     }
-    return etl::detail::strncpy(dest, src, count);
+    return dest;
 #endif
 }
 
